@@ -48,6 +48,13 @@ func concPrograms(tier string, seed int64) []conc.Program {
 			}
 		}
 	}
+	// a handle opened by one goroutine while the other replaces the file under the same name (remove + create, or a
+	// rename onto it): the handle's later write must not bring the old file back
+	out = append(out,
+		conc.Program{Tag: "handle-vs-replace", Start: "file-b", Threads: [][]conc.Op{{{Name: "append", P: "b", Data: d1}}, {{Name: "remove", P: "b"}, {Name: "writefile", P: "b", Data: d2}}}},
+		conc.Program{Tag: "handle-vs-replace", Start: "file-b", Threads: [][]conc.Op{{{Name: "append", P: "b", Data: d1}}, {{Name: "writefile", P: "a", Data: d2}, {Name: "rename", P: "a", Q: "b"}}}},
+		conc.Program{Tag: "handle-vs-replace", Start: "dir-a-file-a/c", Threads: [][]conc.Op{{{Name: "append", P: "a/c", Data: d1}}, {{Name: "remove", P: "a/c"}, {Name: "writefile", P: "a/c", Data: d2}}}},
+	)
 	if tier == "thorough" {
 		rnd := rand.New(rand.NewSource(seed))
 		for _, start := range []string{"empty", "dir-a", "dir-a-file-a/c", "file-b"} {
@@ -74,6 +81,8 @@ func init() {
 		maxPer := fl.Int("max-schedules", 400, "schedules per program")
 		blobs := fl.Bool("gate-blobs", false, "blob operations are scheduling points too")
 		txnops := fl.Bool("gate-txn-ops", false, "every Get/Set inside a store transaction is a scheduling point too")
+		txnend := fl.Bool("gate-txn-end", false, "the return of every Commit is a scheduling point too")
+		tagged := fl.Bool("tagged", false, "only the hand-picked (tagged) programs")
 		par := fl.Int("par", 4, "programs explored in parallel")
 		only := fl.String("only", "", "keep programs containing one of these operation kinds (comma separated)")
 		_ = fl.Parse(args)
@@ -97,7 +106,16 @@ func init() {
 			}
 			progs = keep
 		}
-		opts := conc.Opts{GateBlobs: *blobs, GateTxnOps: *txnops}
+		if *tagged {
+			var keep []conc.Program
+			for _, p := range progs {
+				if p.Tag != "" {
+					keep = append(keep, p)
+				}
+			}
+			progs = keep
+		}
+		opts := conc.Opts{GateBlobs: *blobs, GateTxnOps: *txnops, GateTxnEnd: *txnend}
 		var outs []conc.Outcome
 		truncated := 0
 		// programs are explored in parallel (each execution has its own store); results keep program order
@@ -164,6 +182,7 @@ func init() {
 		}
 		// keep only what a replay needs
 		type lite struct {
+			Final    string       `json:"final"`
 			Program  conc.Program `json:"program"`
 			Schedule []int        `json:"schedule"`
 			Steps    []string     `json:"steps"`
@@ -184,7 +203,7 @@ func init() {
 				}
 			}
 			if keep {
-				lites = append(lites, lite{o.Program, o.Schedule, o.Steps, rs, o.Hang, histOf[i]})
+				lites = append(lites, lite{o.Final, o.Program, o.Schedule, o.Steps, rs, o.Hang, histOf[i]})
 			}
 		}
 		meta := map[string]any{"programs": len(progs), "schedules": len(outs), "truncated_programs": truncated, "histories": n, "gate_blobs": *blobs, "gate_txn_ops": *txnops, "outcomes": lites}
@@ -224,13 +243,14 @@ func init() {
 				Schedule []int        `json:"schedule"`
 				Blobs    bool         `json:"gate_blobs"`
 				TxnOps   bool         `json:"gate_txn_ops"`
+				TxnEnd   bool         `json:"gate_txn_end"`
 			} `json:"conc"`
 		}
 		if err := json.Unmarshal(b, &outer); err != nil {
 			fatal(err)
 		}
 		rf := outer.Conc
-		o, _ := conc.Run(rf.Program, rf.Schedule, conc.Opts{GateBlobs: rf.Blobs, GateTxnOps: rf.TxnOps})
+		o, _ := conc.Run(rf.Program, rf.Schedule, conc.Opts{GateBlobs: rf.Blobs, GateTxnOps: rf.TxnOps, GateTxnEnd: rf.TxnEnd})
 		ob, _ := json.MarshalIndent(o, "", " ")
 		fmt.Println(string(ob))
 	}
